@@ -365,6 +365,39 @@ def _match(pattern, replay):
 # ------------------------------------------------------------------------------------------------
 # the standard proof stage
 # ------------------------------------------------------------------------------------------------
+FORBIDDEN = re.compile(r'\b(Admitted|admit|Axiom|Axioms|Parameter|Parameters|Conjecture|Admit Obligations|bypass_check|Unset Guard Checking|Unset Positivity Checking|Unset Universe Checking|type-in-type|impredicative-set)\b')
+
+
+STDLIB_AXIOM_PREFIXES = ('ClassicalDedekindReals.', 'FunctionalExtensionality.', 'Classical_Prop.', 'Eqdep.', 'ProofIrrelevance.', 'JMeq.',
+                         'ClassicalEpsilon.', 'PropExtensionality.', 'Coq.', 'ClassicalFacts.', 'Rdefinitions.', 'Raxioms.')
+
+
+def hygiene():
+    """no axiom-declaring command, admitted proof or kernel-check switch anywhere in the development (comments stripped)"""
+    bad = []
+    files = [l.strip() for l in open(os.path.join(COQ, '_CoqProject')) if l.strip().endswith('.v')]
+    for f in files + ['_CoqProject']:
+        path = os.path.join(COQ, f)
+        if not os.path.exists(path):
+            continue
+        text = open(path).read()
+        # strip (nested) comments
+        out, depth, i = [], 0, 0
+        while i < len(text):
+            if text.startswith('(*', i):
+                depth += 1; i += 2
+            elif text.startswith('*)', i) and depth:
+                depth -= 1; i += 2
+            else:
+                if not depth:
+                    out.append(text[i])
+                i += 1
+        for ln, line in enumerate(''.join(out).splitlines(), 1):
+            if FORBIDDEN.search(line) or re.match(r'\s*(Variable|Hypothesis|Variables|Hypotheses)\b', line) and f.startswith('gen/'):
+                bad.append('%s: %s' % (f, line.strip()[:80]))
+    return bad
+
+
 def proof_stage(chk, vfile, extra_targets=(), timeout=1500):
     """regenerate, build Properties file, register one obligation per Theorem; returns True when all built."""
     gen = regenerate()
@@ -375,6 +408,8 @@ def proof_stage(chk, vfile, extra_targets=(), timeout=1500):
     res = coq_build([target] + list(extra_targets), timeout=timeout)
     chk.checker_cmds.append('make -C /verif/coq -f Makefile.coq %s' % target)
     thms = theorems_in(vfile)
+    bad = hygiene()
+    chk.obligation('no Admitted / admit / Axiom / Parameter / kernel-check switch in the development', not bad, '; '.join(bad[:5]))
     if res['ok']:
         ass, out = print_assumptions(vfile)
         for name, _ in thms:
@@ -385,6 +420,9 @@ def proof_stage(chk, vfile, extra_targets=(), timeout=1500):
             chk.cov['axioms'] = allax
             for a in allax:
                 chk.trusted.append('axiom (standard library): ' + a)
+            foreign = [a for a in allax if not a.startswith(STDLIB_AXIOM_PREFIXES)]
+            if foreign:
+                chk.obligation('every axiom used is declared by the standard library', False, 'not from the standard library: ' + ', '.join(foreign))
         return True
     # locate the failure
     ff, fl = res['fail_file'], res['fail_line']
